@@ -254,7 +254,7 @@ def harnesses(tier):
         hs.append((Harness(PROP, "%s-bucket-data-ownership" % bk, h_create_ownership, dict(bk=bk), "%s: data dict passed to create/update bucket" % bk), 300))
     recent = [i for i, (a, b) in enumerate(K_PIECES) if b >= 946684800000]  # 2000 .. 2099
     if tier == "quick":
-        hs.append((Harness(PROP, "sqlite-ieee-2000..2099", h_sqlite_ieee, dict(kp_lo=recent[0], kp_hi=len(K_PIECES) - 1), "sqlite store/load pipeline under IEEE rounding: instants 2000 .. 2099 (%d range pieces) x all %d duration pieces" % (len(recent), len(D_PIECES)), split_depth=5, fresh_solver=True), 3000))
+        hs.append((Harness(PROP, "sqlite-ieee-2000..2099", h_sqlite_ieee, dict(kp_lo=recent[0], kp_hi=len(K_PIECES) - 1), "sqlite store/load pipeline under IEEE rounding: instants 2000 .. 2099 (%d range pieces) x all %d duration pieces" % (len(recent), len(D_PIECES)), split_depth=5, fresh_solver=True, cross_solver=1), 3000))
     else:
         hs.append((Harness(PROP, "sqlite-ieee-1970..2099", h_sqlite_ieee, dict(kp_lo=0, kp_hi=len(K_PIECES) - 1), "sqlite store/load pipeline under IEEE rounding: all instants 1970 .. 2099 (%d range pieces) x all %d duration pieces" % (len(K_PIECES), len(D_PIECES)), split_depth=7, fresh_solver=True), 14000))
     return hs
